@@ -325,7 +325,8 @@ def write_replay(prop, seed, index, doc) -> str:
 
 
 def load_known_findings(prop=None):
-    path = os.path.join(VERIF, "known_findings.json")
+    # the override exists for `./check selftest known` only; the registered commands never set it
+    path = os.environ.get("VERIF_KNOWN_FINDINGS_FILE") or os.path.join(VERIF, "known_findings.json")
     if not os.path.exists(path):
         return []
     with open(path) as f:
